@@ -248,6 +248,52 @@ func factShutdownFlagUnderLock() int {
 	return 0
 }
 
+// Serve's read loop: `s.activeAdd()` is a statement of the loop body BEFORE the `go` statement that starts the
+// per-datagram goroutine (the model's `serveRecv` counts the task before it exists; a count taken inside the new
+// goroutine would let Shutdown see zero between the `go` and the increment).
+// 1: so; 0: the goroutine's own body calls activeAdd and nothing before the go statement does; 2: anything else.
+func factActiveAddBeforeGo() int {
+	_, f := parseRepoFile("server-packet.go")
+	fd := findFunc(f, "s", "Serve")
+	if fd == nil {
+		return 2
+	}
+	res := 2
+	ast.Inspect(fd.Body, func(n ast.Node) bool {
+		blk, ok := n.(*ast.BlockStmt)
+		if !ok {
+			return true
+		}
+		add := -1
+		for i, st := range blk.List {
+			if callName(st) == "s.activeAdd" && add < 0 {
+				add = i
+			}
+			gs, ok := st.(*ast.GoStmt)
+			if !ok {
+				continue
+			}
+			inside := false
+			ast.Inspect(gs.Call, func(m ast.Node) bool {
+				if c, ok := m.(*ast.CallExpr); ok && exprName(c.Fun) == "s.activeAdd" {
+					inside = true
+				}
+				return true
+			})
+			switch {
+			case add >= 0 && add < i && !inside:
+				res = 1
+			case add < 0 && inside:
+				if res == 2 {
+					res = 0
+				}
+			}
+		}
+		return true
+	})
+	return res
+}
+
 // Exchange: the retransmission ticker is created with the configured interval itself - `time.NewTicker(c.Retry)`.
 // 1: literally so; 0: the argument is another expression that mentions Retry (2*c.Retry, c.Retry+x, f(c.Retry));
 // 2: anything the extractor cannot judge (no such call, the interval passed through a local or a helper).
@@ -291,6 +337,7 @@ func factTickerPeriodIsRetry() int {
 func init() {
 	factProbes = append(factProbes, func(f *factSet) {
 		f.nat("tickerPeriodIsRetry", factTickerPeriodIsRetry())
+		f.nat("activeAddBeforeGo", factActiveAddBeforeGo())
 		f.nat("shutdownFlagUnderLock", factShutdownFlagUnderLock())
 		f.nat("newUsesCryptoRand", factNewUsesCryptoRand())
 		f.nat("countedUnderLock", factCountedUnderLock())
